@@ -924,6 +924,11 @@ def model_specs(tier):
                                                                        output_initialization=[0.0, 1.0])))
   specs.append(dict(kind='ensemble', features=[A, Bd, N], model=dict(lattices='rtl_layer', num_lattices=2, lattice_rank=2, random_seed=1,
                                                                        output_min=0.0, output_max=1.0, output_initialization=[0.0, 1.0])))
+  # RTL: the arrangement of monotone and unconstrained inputs inside a lattice depends on the seed
+  for seed, nl in ((2, 2), (3, 3), (5, 3)):
+    specs.append(dict(kind='ensemble', features=[A, Bd, N, NUM('m', 'none')],
+                      model=dict(lattices='rtl_layer', num_lattices=nl, lattice_rank=2, random_seed=seed, output_min=0.0,
+                                 output_max=1.0, output_initialization=[0.0, 1.0])))
   # one-sided output bounds (each builder decides "bounded" on its own)
   specs.append(dict(kind='ensemble', features=[A, Bd, Cc], model=dict(lattices=[['a', 'b'], ['b', 'c']], use_linear_combination=True,
                                                                         use_bias=False, output_min=-1.0, output_initialization=[-1.0, 1.0])))
